@@ -15,7 +15,8 @@ func init() {
 			"(R-C02-SITES) every hand-over site (a dynamic call of a func(*Item)/func(V) callback) in the package is discovered and must be of a known kind; " +
 			"(R-C02-ORIGIN) the value reaching each callback is the result of a detaching store call (Update on its found side, Del), or a buffered item that was never inserted (no successful store.Set on the path, flag != itemUpdate), or a ranged entry inside lockedMap.Clear with the write lock held and the map re-assigned on every path, or a forwarded parameter inside a wrapper closure; " +
 			"(R-C02-DETACH) lockedMap.Update/Del return a stored value only on paths that performed the mutation of that key, with the shard write lock held from lookup to mutation; " +
-			"(R-C02-ORDER) for victims the detaching Del result is stored into the reported item before the callback. " +
+			"(R-C02-ORDER) for victims the detaching Del result is stored into the reported item before the callback; " +
+			"(R-C02-VERDICT) store.Set answers 'stored' exactly on the paths that filed the item (the applier hands a refused item to OnReject/OnExit). " +
 			"NOT decided: orderings across goroutines beyond lock atomicity (C08), and whether two different detaches can race for the same value (each detach is one critical section).",
 		Run: runC02,
 	})
@@ -105,6 +106,7 @@ func runC02(c *Ctx) {
 	L.Rule("R-C02-SITES", "every dynamic call of a func(*Item)/func(V) callback in the package is a known hand-over site", 12)
 	L.Rule("R-C02-ORIGIN", "the value handed to a callback comes from a detaching store call (or a never-inserted buffered item, or the locked drain of lockedMap.Clear, or is forwarded inside a wrapper)", 12)
 	L.Rule("R-C02-DETACH", "lockedMap.Update/Del yield a stored value only after mutating that key, write lock held from lookup to mutation", 2)
+	L.Rule("R-C02-VERDICT", "store.Set answers 'stored' exactly on the paths that filed the item: the applier reports a refused item to OnReject/OnExit, so a wrong 'refused' hands out a value that stays resident", 2)
 	L.Rule("R-C02-ORDER", "a victim's Value is assigned from the detaching Del before it is reported", 1)
 
 	tbs := map[*ssa.Function]*TB{}
@@ -128,7 +130,16 @@ func runC02(c *Ctx) {
 	c.Group("R-C02-SITES", "discovery", func() {
 		sites := handOverSites(P, tbOf)
 		L.CallSites(len(sites))
-		wrappers := map[string]bool{"NewCache$1": true, "NewCache$2": true, "NewCache$3": true, "Cache.processItems$2": true}
+		// wrapper closures, identified by what they are: the closures NewCache stores in c.onExit/onEvict/onReject
+		// and the applier's closure that forwards to c.onEvict
+		wrappers := map[string]bool{fname(P.ApplierOnEvict()): true}
+		for _, fld := range []string{"onExit", "onEvict", "onReject"} {
+			for _, st := range fieldStoresIn(P.Fn("ristretto", "", "NewCache"), "Cache", fld) {
+				if mc, ok := st.Val.(*ssa.MakeClosure); ok {
+					wrappers[fname(mc.Fn.(*ssa.Function))] = true
+				}
+			}
+		}
 		for _, s := range sites {
 			fn, tb := s.fn, tbOf(s.fn)
 			L.Analysed(fname(fn))
@@ -165,6 +176,7 @@ func runC02(c *Ctx) {
 	})
 
 	detachRule(c, "R-C02-DETACH", tbOf, locks)
+	transferRule(c, "R-C02-VERDICT")
 }
 
 // detachRule: lockedMap.Update/Del yield a stored value only after mutating that key,
